@@ -26,6 +26,8 @@ Definition dec_ev (kind key arg : N) : ev :=
   | 14%N => EPollQueue k
   | 15%N => EPollCancel k
   | 16%N => EDropDrain k
+  | 17%N => EPollArm k
+  | 19%N => EPollEvent k
   | 101%N => EUserPop k (N.eqb arg 1)
   | 102%N => EUserDrop k
   | 103%N => EUserCancel k
